@@ -543,6 +543,17 @@ impl TB {
         self.push(t, K::New, a, b, c);
         self.add_rc(t, name);
     }
+    /// New edge-less node whose destructor uses the API (`dact` as in `shadow::destructor_action`).
+    pub fn new_node_dact(&mut self, t: usize, name: &str, dact: u8, rank_hint: u8) {
+        self.push(t, K::New, dact.wrapping_sub(1), rank_hint, 32 | 3 | 64 | 128);
+        self.add_rc(t, name);
+    }
+    pub fn until_steps(&mut self, t: usize, n: u32) {
+        self.sched.push(Directive { thread: t as u8, until: Until::Steps(n) });
+    }
+    pub fn until_end(&mut self, t: usize) {
+        self.sched.push(Directive { thread: t as u8, until: Until::End });
+    }
     pub fn clone_rc(&mut self, t: usize, src: &str, name: &str) {
         let a = self.rc_idx(t, src);
         self.push(t, K::Clone, a, 0, 0);
